@@ -17,7 +17,7 @@ meta = json.load(open(f"{src}/{letter}.meta.json"))
 patch = f"{src}/{letter}.patch.diff"
 
 
-def sh(cmd, cwd=None, timeout=3600):
+def sh(cmd, cwd=None, timeout=1500):
     p = subprocess.run(cmd, shell=True, cwd=cwd, capture_output=True, text=True, timeout=timeout)
     return p.returncode, p.stdout + p.stderr
 
@@ -81,7 +81,7 @@ rc, out = sh(f"git -C /repo apply {patch}")
 assert rc == 0, out
 try:
     t = time.time()
-    rc, out = sh(f"./check {prop} --tier quick", cwd="/verif", timeout=3600)
+    rc, out = sh(f"./check {prop} --tier quick", cwd="/verif", timeout=1500)
     viol = [l for l in out.splitlines() if l.startswith("VIOLATION") or l.startswith("[") and "violates" in l]
     result["check_quick"] = {"exit": rc, "lines": viol[:4], "wall_s": round(time.time() - t)}
     print("check quick exit", rc, viol[:3])
